@@ -32,10 +32,11 @@ class SymExc(Exception):
 
 class SVal(Proxy):
     """Opaque value read from a future (only moved around, never inspected)."""
-    __slots__ = ("t",)
+    __slots__ = ("t", "iv")
 
-    def __init__(self, t):
+    def __init__(self, t, iv=None):
         self.t = t
+        self.iv = iv          # integer payload travelling with the tag (when the tag is V_INT)
 
     def __repr__(self):
         return "SVal(%s)" % self.t
@@ -94,7 +95,7 @@ class Heap:
                 return SInt(z3.simplify(z3.Select(self.ival, ref)))
             if 1000 <= n < 1000 + len(self.objs):
                 return self.objs[n - 1000]
-        return SVal(t)
+        return SVal(t, z3.Select(self.ival, ref) if ref is not None else None)
 
     def new(self):
         self.nalloc += 1
@@ -174,6 +175,8 @@ class SFut(asyncio.Future):
             h.ival = z3.Store(h.ival, self.ref, _iz(v))
         else:
             h.val = z3.Store(h.val, self.ref, h.tag_of(v))
+            if isinstance(v, SVal) and v.iv is not None:
+                h.ival = z3.Store(h.ival, self.ref, v.iv)
         h.events.append(("set_result", self, v))
 
     def set_exception(self, e):
